@@ -15,9 +15,14 @@ NULL == -100
 Strs == <<"", "a", "ab", "b", "ba">>                 \* sorted
 StrVals == 1..Len(Strs)
 IntVals == {-1, 0, 1, 2, 3}
+\* a second integer field j holds boundary and extreme values; like strings they are ranks into a sorted table
+\* (TLC integers are 32 bit), so j takes part in filters and ordering but not in arithmetic
+JTab == <<"-9223372036854775807", "-5000000000000000000", "-257", "-256", "-1", "0", "1", "255", "256", "65535",
+          "5000000000000000000", "9223372036854775807">>
+JVals == 1..Len(JTab)
 BoolVals == {0, 1}
-FieldsOf == [s |-> StrVals, i |-> IntVals, b |-> BoolVals]
-Fields == {"s", "i", "b"}
+FieldsOf == [s |-> StrVals, i |-> IntVals, b |-> BoolVals, j |-> JVals]
+Fields == {"s", "i", "b", "j"}
 
 \* _like patterns over Strs, by name; the set of ranks each one matches
 \* (a lone "%" and patterns with inner wildcards other than one infix are not specified and not generated)
@@ -87,7 +92,8 @@ Agg(fn, S, f) ==
 -----------------------------------------------------------------------------
 (* A query program and its result.                                          *)
 (*  q = [flt, order (seq of [f, desc]), limit (0 = none), offset,           *)
-(*       kind \in {"list","agg","group"}, fn, af (aggregate field), gf]     *)
+(*       kind \in {"list","agg","group"}, fn, af (aggregate field), gf,     *)
+(*       gl, go (limit / offset of the _group window, 0 = none)]            *)
 Result(docs, q) ==
   LET F == Filtered(docs, q.flt) IN
   CASE q.kind = "list" ->
@@ -98,7 +104,11 @@ Result(docs, q) ==
           from |-> {d.id : d \in F}]
     [] q.kind = "agg" -> [value |-> Agg(q.fn, F, q.af)]
     [] q.kind = "group" ->
-         [groups |-> {[key |-> v,
-                       count |-> Cardinality({d \in F : d[q.gf] = v}),
-                       sum |-> SumF(NonNull({d \in F : d[q.gf] = v}, "i"), "i")] : v \in {d[q.gf] : d \in F}}]
+         LET Size(v) == Cardinality({d \in F : d[q.gf] = v})
+             \* number of group members inside the window _group(limit: gl, offset: go)
+             Win(n) == LET rest == IF n > q.go THEN n - q.go ELSE 0 IN IF q.gl = 0 THEN rest ELSE Min({q.gl, rest})
+         IN [groups |-> {[key |-> v,
+                          count |-> Size(v),
+                          wcount |-> Win(Size(v)),
+                          sum |-> SumF(NonNull({d \in F : d[q.gf] = v}, "i"), "i")] : v \in {d[q.gf] : d \in F}}]
 =============================================================================
